@@ -52,6 +52,7 @@ if [ -n "$RACE_SWITCH" ] && [ -z "${VERIF_SKIP_RACE:-}" ]; then
       grep -m1 -A12 "WARNING: DATA RACE" "$racelog" | sed 's/^/  /'
       rc_race=1
       export RACE_RESULT="data race reported by the race detector"
+      export C09_SKIP_D=1   # the free-running part has made its finding; unsynchronised map access can end a non-race process with a fatal error
     elif [ $rr -ne 0 ]; then
       echo "race pass exited $rr" >&2; tail -5 "$racelog" >&2
       export RACE_RESULT="race pass did not complete (exit $rr)"
